@@ -117,7 +117,7 @@ def main():
     tmpd = tempfile.mkdtemp(prefix="lsf_c06_")
 
     # ---- 1. one fan-out, every failure assignment x every reply order (small), replayed on the model
-    cases, descs, c2, c3, gdesc = [], [], [], [], []
+    cases, descs, c2, c3, gdesc, hcases = [], [], [], [], [], []
 
     def run_one(kind, n, failing, catch, perm, mc=None, sched="perm"):
         definition = machine(kind, n, catch, mc)
@@ -139,6 +139,7 @@ def main():
         for c in ec.c02_cases(info):
             c2.append(c)
         c3.append(ec.c03_case(info))
+        hcases.append("([%s], %s)" % ("; ".join(str(x) for x in info.xs), ec.effects_term(info)))
         gdesc.append(d)
         info.world = None
 
@@ -200,6 +201,7 @@ def main():
         for c in ec.c02_cases(info):
             c2.append(c)
         c3.append(ec.c03_case(info))
+        hcases.append("([%s], %s)" % ("; ".join(str(x) for x in info.xs), ec.effects_term(info)))
         gdesc.append(d)
         rec = info.samples[-1][info.arns[0]]["record"] if info.samples else None
         if rec and rec.get("status") in ("SUCCEEDED", "FAILED"):
@@ -231,13 +233,15 @@ def main():
     ck.add_group("random_machines_vs_semantics", len(sem_cases), len(sem_cases), sem_desc[:1])
 
     mon = [("c02", "PyStr Cases TraceSpec C02Oracle", "c02_case", c2, ["c02_record_ok", "c02_notes_case_ok", "c02_ended_ok", "c02_agree_ok"], 40),
-           ("c03", "PyStr Cases TraceSpec C02Oracle", "c03_case", c3, ["c03_order_ok", "c03_once_ok", "c03_carried_ok", "c03_drained_ok"], 25)]
+           ("c03", "PyStr Cases TraceSpec C02Oracle", "c03_case", c3, ["c03_order_ok", "c03_once_ok", "c03_carried_ok", "c03_drained_ok"], 25),
+           # nothing a sibling does afterwards adds history: no history event after the terminal one, no exit without an entry
+           ("hist", "PyStr Cases TraceSpec C09Oracle", "list xid * list effect", hcases, ["(fun c => c09_hist_ok (fst c) (snd c))"], 40)]
     for name, imp, ty, cs, fs, pf in mon:
         r = ck.eval_cases(name, imp, ty, cs, fs, per_file=pf, timeout=900, prelude=PRE)
         if r is not None:
             for f in fs:
                 for i in r[f][:2]:
-                    d = gdesc[i] if name == "c03" else None
+                    d = gdesc[i] if name in ("c03", "hist") else None
                     ck.violation("monitor %s failed on a run with a failing fan-out (the execution did not end exactly once, or something was left unacknowledged / not drained)%s"
                                  % (f, (": " + json.dumps({k: d.get(k) for k in ("kind", "n", "failing_branches", "catch", "schedule", "definition", "leftovers")})[:1500]) if d else ""),
                                  {"case": d, "monitor": f, "index": i})
